@@ -1387,16 +1387,22 @@ package reftable
 //@   params w
 //@   modifies w.ALLFIELDS, anyof(*blockWriter), taken, anyof([]byte), anyof([]uint32), anyof([]indexRecord), pv
 
-// coarse: opens and scans the new table (read-only on the directory)
+// coarse: opens and scans the new table (read-only on the directory) and checks its names against the handle's merged
+// view. C12: that view is the resulting view only if this transaction has not already added tables of its own - the ghost
+// parameter `pending` is the number of tables the transaction holds so far.
 //@ func (*Stack).checkAddition
 //@   trusted
+//@   props C12
+//@   ghostparams pending
+//@   requires[names-are-checked-against-the-whole-transaction] {C12} s.cfg.SkipNameCheck || pending == 0
 //@   modifies buflen, bufdata, lastDelta, lastSought, listNames, listLen, lastReadNames, lastReadLen, seekOn, seekName, seekIdx, yielded, stream
 //@   ensures listStable()
 
 // C04/C05/C16: a table is added to the transaction only after it has been written, closed, checked and renamed into
 // place; nothing temporary survives the call; the transaction invariant is kept.
 //@ func (*Addition).Add
-//@   props C04 C05 C16 C08 C06
+//@   props C04 C05 C16 C08 C06 C12
+//@   callsite (*Stack).checkAddition 1 ghost pending = len(tr.newTables)
 //@   requires addInv(tr) && tr.lockFileName != ""
 //@   modifies held, ownsTmp, tblExists, fileClosed, fileOf, listNames, listLen, lastReadNames, lastReadLen, appends, commits, buflen, bufdata, lastDelta, lastSought, tr.names, tr.names[:cap(tr.names)], tr.newTables, tr.newTables[:cap(tr.newTables)], tr.nextUpdateIndex, anyof(*blockWriter), retired, rdClosed, taken, seekOn, seekName, seekIdx, yielded, anyof([]byte), anyof([]uint32), anyof([]indexRecord), pv, stream
 //@   ensures[inv-a1] tr != nil && tr.stack == old(tr.stack) && tr.lockFileName == old(tr.lockFileName) && tr.lockFile == old(tr.lockFile) && appends == old(appends) && commits == old(commits)
